@@ -662,4 +662,36 @@ example : ∃ st, runFilter (propagateStep bndL []) (fun _ => true) gsL = .ok st
   ⟨_, gsL_run, rfl, C15_propagate_promotion [] _ gsL rankL _ gsL_ranked gsL_named (by decide) gsL_run,
     C15_propagate_placed [] _ gsL rankL _ gsL_ranked gsL_named (by decide) gsL_run⟩
 
+/-! ### the matrix `set_context` builds is the REQUESTED one (offset ∘ origin shift ∘ scale ∘ slant ∘ shift back) -/
+
+/-- the matrix read off `requestedMap` acts as `requestedMap` on every point -/
+theorem requestedMatrix_apply (o : TOpts) (p : Q × Q) : (requestedMatrix o).apply p = requestedMap o p := by
+  simp only [requestedMatrix, requestedMap, Affine.apply]
+  ext <;> simp only [] <;> grind
+
+/-- `TransformationsFilter.set_context` (model `tMatrix`: the guarded chain translate / translate / scale / skew / translate of
+    post-multiplying `Transform` calls) builds exactly the requested matrix, for ALL options: slant is applied to a point
+    BEFORE the scale (so with ScaleX ≠ ScaleY the slant angle is the requested one), the origin shift cancels outside. -/
+theorem tMatrix_eq_requested (o : TOpts) : tMatrix o = requestedMatrix o := by
+  simp only [tMatrix, requestedMatrix, requestedMap, Affine.translate, Affine.scale, Affine.compose, Affine.id,
+    bne_iff_ne, ne_eq, Bool.or_eq_true]
+  repeat' split
+  all_goals (simp only [Affine.mk.injEq]; grind)
+
+/-- every point is mapped as requested by the matrix the filter uses -/
+theorem C15_transform_requested (o : TOpts) (p : Q × Q) : (tMatrix o).apply p = requestedMap o p := by
+  rw [tMatrix_eq_requested, requestedMatrix_apply]
+
+/-- scale and slant do not commute: composing them in the other order is a different matrix as soon as ScaleX ≠ ScaleY -/
+example : requestedMap ⟨0, 0, 50, 100, true, 1/4, 0⟩ (0, 8) = (1, 8) := by decide +kernel
+
+theorem all2_refl {α : Type} (f : α → α → Bool) (hf : ∀ a, f a a = true) : ∀ l : List α, all2 f l l = true
+  | [] => rfl
+  | a :: l => by simp [all2, hf a, all2_refl f hf l]
+
+/-- the tolerance comparison accepts an exact match -/
+theorem closeDrawing_refl (eps : Q) (h : 0 ≤ eps) (a : List Contour) : closeDrawing eps a a = true := by
+  apply all2_refl; intro c; apply all2_refl; intro p
+  simp [closePt, closeQ, Rat.sub_self, h]
+
 end Ufo2ft.C15
